@@ -11,13 +11,11 @@ Lemma step_pump_take s c hi s' :
   exists x f', fpop (chan_of tp hi) = Some (x, f') /\
     s' = match x with
          | ISent => sc (st s T (set_chan tp hi f')) c (set_pump cl PExit None)
-         | IMsg o => if o_id (go s o) =? 0
-                     then set_where (sc (st s T (set_chan tp hi f')) c (set_pump cl PExit None)) o P0
-                     else set_where (sc (st s T (set_chan tp hi f')) c (set_pump cl PRun (Some x))) o (PHold c)
+         | IMsg o => set_where (sc (st s T (set_chan tp hi f')) c (set_pump cl PRun (Some x))) o (PHold c)
          end.
 Proof.
   intros H. step_inv H; simpl; split; auto; eexists _, _; (split; [eassumption|]);
-    simpl; repeat match goal with E : (o_id _ =? 0) = _ |- _ => rewrite E; clear E end; reflexivity.
+    reflexivity.
 Qed.
 
 Lemma step_xtake s k hi s' :
@@ -27,13 +25,11 @@ Lemma step_xtake s k hi s' :
   exists x f', fpop (chan_of tp hi) = Some (x, f') /\
     s' = match x with
          | ISent => sx (st s T (set_chan tp hi f')) k (set_xp xp PExit None)
-         | IMsg o => if o_id (go s o) =? 0
-                     then set_where (sx (st s T (set_chan tp hi f')) k (set_xp xp PExit None)) o P0
-                     else set_where (sx (st s T (set_chan tp hi f')) k (set_xp xp PRun (Some x))) o (PXHold k)
+         | IMsg o => set_where (sx (st s T (set_chan tp hi f')) k (set_xp xp PRun (Some x))) o (PXHold k)
          end.
 Proof.
   intros H. step_inv H; simpl; split; auto; eexists _, _; (split; [eassumption|]);
-    simpl; repeat match goal with E : (o_id _ =? 0) = _ |- _ => rewrite E; clear E end; reflexivity.
+    reflexivity.
 Qed.
 
 Lemma step_xput s k s' :
